@@ -8,6 +8,7 @@ from .mean import Mean
 class LinearMean(Mean):
     def __init__(self, input_size, batch_shape=torch.Size(), bias=True):
         super().__init__()
+        self.batch_shape = torch.Size(batch_shape)
         self.register_parameter(name="weights", parameter=torch.nn.Parameter(torch.randn(*batch_shape, input_size, 1)))
         if bias:
             self.register_parameter(name="bias", parameter=torch.nn.Parameter(torch.randn(*batch_shape, 1)))
